@@ -711,6 +711,9 @@ func hasCallref(e *SExpr) bool {
 	if e.Op == "callref" {
 		return true
 	}
+	if e.Op == "call" && e.Name == "stored" {
+		return true // stored("T.f") speaks about the stores of the function that carries the clause, like a call reference
+	}
 	for _, a := range e.Args {
 		if hasCallref(a) {
 			return true
